@@ -616,6 +616,18 @@ impl Pos {
         Ok(())
     }
 
+    /// which aspect (in FEN field order) the first failed soundness clause belongs to
+    pub fn unsound_aspect(&self) -> Option<text::FenFault> {
+        match self.sound() {
+            Ok(()) => None,
+            Err(e) if e.starts_with("castling right") => Some(text::FenFault::Castling),
+            Err(e) if e.starts_with("en-passant") => Some(text::FenFault::EnPassant),
+            Err(e) if e.starts_with("half-move") => Some(text::FenFault::HalfMove),
+            Err(e) if e.starts_with("full-move") => Some(text::FenFault::FullMove),
+            Err(_) => Some(text::FenFault::Board),
+        }
+    }
+
     pub fn status(&self) -> Status {
         let any = !self.legal_moves().is_empty();
         if !any {
